@@ -513,7 +513,8 @@ func (g *TGen) stmt() []*Node {
 			if !g.c.IncrDecr {
 				continue
 			}
-			if vs := g.vars(func(v tvar) bool { return v.t == TInt && !v.loop }); len(vs) > 0 {
+			// (also the variable of a counted loop: the next iteration sets it again)
+			if vs := g.vars(func(v tvar) bool { return v.t == TInt && (!v.loop || (v.counted && !g.c.NoLoopVarCapture)) }); len(vs) > 0 {
 				v := vs[g.intn(len(vs), "incr")]
 				switch g.intn(4, "incrform") {
 				case 0:
